@@ -475,6 +475,222 @@ def gen_cookie_guards(repo):
     return ''.join(out)
 
 
+def coq_str_any(s):
+    """Coq string literal for text that may contain newlines/tabs: split around them"""
+    parts = s.split('\n')
+    return '(' + ' ++ nl ++ '.join(coq_str(p) for p in parts) + ')'
+
+
+def gen_errors(repo):
+    rel = 'clastic/errors.py'
+    tree = parse(repo, rel)
+    ce = ConstEval(tree)
+    out = [HEADER % rel, 'From Coq Require Import List String ZArith.\nImport ListNotations.\n',
+           'From ClasticV Require Import Base.Strs Model.Errors.\nLocal Open Scope string_scope.\nLocal Open Scope list_scope.\n\n']
+    mm = ce.get('MIME_SUPPORT_MAP')
+    out.append('Definition MIME_SUPPORT_MAP : list (string * string) := %s.\n'
+               % coq_list(['(%s, %s)' % (coq_str(k), coq_str(v)) for k, v in mm.items()]))
+    out.append('Definition DEFAULT_MIME : string := %s.\n' % coq_str(ce.get('DEFAULT_MIME')))
+    # class table: every class whose bases lead to HTTPException, with its literal code/message (inherited if absent)
+    classes = dict((n.name, n) for n in tree.body if isinstance(n, ast.ClassDef))
+
+    def attr(cls, name):
+        for st in cls.body:
+            if isinstance(st, ast.Assign) and len(st.targets) == 1 and isinstance(st.targets[0], ast.Name) and st.targets[0].id == name:
+                return ce.ev(st.value)
+        for b in cls.bases:
+            if isinstance(b, ast.Name) and b.id in classes:
+                v = attr(classes[b.id], name)
+                if v is not None:
+                    return v
+        return None
+
+    def is_http(cls):
+        if cls.name == 'HTTPException':
+            return True
+        return any(isinstance(b, ast.Name) and b.id in classes and is_http(classes[b.id]) for b in cls.bases)
+    rows = []
+    for n in tree.body:
+        if isinstance(n, ast.ClassDef) and is_http(n) and n.name != 'HTTPException':
+            code, msg = attr(n, 'code'), attr(n, 'message')
+            if not isinstance(code, int) or not isinstance(msg, str):
+                raise TranslatorError('class %s: code/message are not literals' % n.name)
+            rows.append('(%s, %d%%Z, %s)' % (coq_str(n.name), code, coq_str(msg)))
+    out.append('Definition ERROR_CLASSES : list (string * Z * string) :=\n  %s.\n' % coq_list(rows).replace('; (', ';\n   ('))
+    he = classes['HTTPException']
+    # escaping calls of to_escaped_dict and where html_escape comes from
+    ted = find_def(he.body, 'to_escaped_dict')
+    calls = [ast.unparse(n) for n in ast.walk(ted) if isinstance(n, ast.Call) and isinstance(n.func, ast.Name) and n.func.id == 'html_escape']
+    out.append('Definition ESCAPE_CALLS : list string := %s.\n' % names_list(sorted(calls)))
+    imports = [ast.unparse(n) for n in ast.walk(tree) if isinstance(n, ast.ImportFrom) and any(a.asname == 'html_escape' for a in n.names)]
+    out.append('Definition ESCAPE_IMPORTS : list string := %s.\n' % names_list(imports))
+    none_rule = [ast.unparse(st.test) + ' => ' + ast.unparse(st.body[0]) for st in ast.walk(ted) if isinstance(st, ast.If)]
+    out.append('Definition ESCAPE_NONE_RULE : list string := %s.\n' % names_list(none_rule))
+    # to_html: lines = [...]; conditional appends; '\n'.join(lines).format(**params)
+    th = find_def(he.body, 'to_html')
+
+    def const_str(e):
+        v = ce.ev(e)
+        if not isinstance(v, str):
+            raise TranslatorError('template piece is not a string')
+        return v
+
+    def cond(e):
+        # params['x']  |  params['x'].startswith('http')
+        if isinstance(e, ast.Subscript) and isinstance(e.value, ast.Name) and e.value.id == 'params':
+            return 'nonempty (field f %s)' % coq_str(ce.ev(e.slice))
+        if isinstance(e, ast.Call) and isinstance(e.func, ast.Attribute) and e.func.attr == 'startswith' and len(e.args) == 1:
+            sub = e.func.value
+            if isinstance(sub, ast.Subscript) and isinstance(sub.value, ast.Name) and sub.value.id == 'params':
+                return 'prefix_s %s (field f %s)' % (coq_str(ce.ev(e.args[0])), coq_str(ce.ev(sub.slice)))
+        raise TranslatorError('to_html condition outside whitelist: %s' % ast.unparse(e))
+
+    def lines_of(stmts):
+        """-> Gallina expression of type list string for the pieces appended by these statements"""
+        parts = []
+        for st in stmts:
+            if isinstance(st, ast.Expr) and isinstance(st.value, ast.Call) and isinstance(st.value.func, ast.Attribute) \
+                    and st.value.func.attr == 'append' and isinstance(st.value.func.value, ast.Name) and st.value.func.value.id == 'lines':
+                parts.append('[%s]' % coq_str_any(const_str(st.value.args[0])))
+            elif isinstance(st, ast.If):
+                parts.append('(if %s then %s else %s)' % (cond(st.test), lines_of(st.body), lines_of(st.orelse) if st.orelse else '[]'))
+            else:
+                raise TranslatorError('to_html statement outside whitelist: %s' % ast.unparse(st)[:80])
+        return ' ++ '.join(parts) if parts else '[]'
+    body = th.body
+    if not (isinstance(body[0], ast.Assign) and ast.unparse(body[0]) == 'params = self.to_escaped_dict()'):
+        raise TranslatorError('to_html no longer starts with params = self.to_escaped_dict()')
+    if not (isinstance(body[1], ast.Assign) and isinstance(body[1].targets[0], ast.Name) and body[1].targets[0].id == 'lines'
+            and isinstance(body[1].value, ast.List)):
+        raise TranslatorError('to_html: lines = [...] expected')
+    first = '[' + '; '.join(coq_str_any(const_str(e)) for e in body[1].value.elts) + ']'
+    ret = body[-1]
+    if not (isinstance(ret, ast.Return) and ast.unparse(ret.value) == "'\\n'.join(lines).format(**params)"):
+        raise TranslatorError('to_html return shape: %s' % ast.unparse(ret))
+    out.append('Definition html_lines (f : efields) : list string :=\n  %s ++ %s.\n' % (first, lines_of(body[2:-1])))
+    out.append('Definition to_html (f : efields) : string := fmt (join nl (html_lines f)) f.\n')
+    # to_xml: one template
+    tx = find_def(he.body, 'to_xml')
+    tpl = None
+    for n in ast.walk(tx):
+        if isinstance(n, ast.Call) and isinstance(n.func, ast.Attribute) and n.func.attr == 'format' and ast.unparse(n.args + n.keywords) if False else False:
+            pass
+    for n in ast.walk(tx):
+        if isinstance(n, ast.Call) and isinstance(n.func, ast.Attribute) and n.func.attr == 'format':
+            if [k.arg for k in n.keywords] != [None] or n.args:
+                raise TranslatorError('to_xml format call shape')
+            tpl = const_str(n.func.value)
+    if tpl is None:
+        raise TranslatorError('to_xml template not found')
+    out.append('Definition XML_TEMPLATE : string := %s.\nDefinition to_xml (f : efields) : string := fmt XML_TEMPLATE f.\n' % coq_str_any(tpl))
+    # JSON fields
+    td = find_def(he.body, 'to_dict')
+    keys = None
+    for n in ast.walk(td):
+        if isinstance(n, ast.Dict):
+            keys = [ce.ev(k) for k in n.keys]
+    out.append('Definition JSON_FIELDS : list string := %s.\n' % names_list(sorted(keys or [])))
+    return ''.join(out)
+
+
+def gen_templates(repo):
+    """every variable reference ({name} / {name|filters}) of the ashes templates used for debug pages and the flaw page"""
+    import re as _re
+    out = [HEADER % 'clastic/_contextual_errors.py, clastic/flaw.py',
+           'From Coq Require Import List String.\nImport ListNotations.\nLocal Open Scope string_scope.\n\n']
+
+    def refs(text):
+        found = []
+        for m in _re.finditer(r'\{([^{}\n]*)\}', text):
+            body = m.group(1).strip()
+            if not body or body[0] in '#?^<>+@!:/%~' or ' ' in body.split('|')[0] or body[0] in '\'"0123456789':
+                continue
+            if not _re.match(r'^[A-Za-z_.][A-Za-z0-9_.\[\]]*(\|[a-z]+)*$', body):
+                continue
+            parts = body.split('|')
+            found.append((parts[0], parts[1:]))
+        return found
+    for label, rel in (('CONTEXTUAL', 'clastic/_contextual_errors.py'), ('FLAW', 'clastic/flaw.py')):
+        tree = parse(repo, rel)
+        texts = [n.value for n in ast.walk(tree) if isinstance(n, ast.Constant) and isinstance(n.value, str) and '{' in n.value and '<' in n.value]
+        allrefs = []
+        for t in texts:
+            allrefs += refs(t)
+        uniq = sorted(set((n, tuple(f)) for n, f in allrefs))
+        out.append('Definition %s_REFS : list (string * list string) :=\n  %s.\n'
+                   % (label, coq_list(['(%s, %s)' % (coq_str(n), names_list(list(f))) for n, f in uniq]).replace('; (', ';\n   (')))
+    return ''.join(out)
+
+
+def gen_flaw(repo):
+    """flaw.py: the page template as a node list (ashes subset: text, {ref}, {#sec}..{:else}..{/sec}), the
+    exception handling of create_app / get_flaw_info, the route patterns."""
+    import re as _re
+    rel = 'clastic/flaw.py'
+    tree = parse(repo, rel)
+    tpl = ConstEval(tree).get('_FLAW_TEMPLATE')
+    toks = _re.split(r'(\{[#/:]?[A-Za-z_.]*\})', tpl)
+
+    def lit(t):
+        return 'NText %s' % coq_str_any(t)
+
+    def parse_nodes(i, closing):
+        nodes = []
+        while i < len(toks):
+            t = toks[i]
+            if i % 2 == 0:
+                if t:
+                    nodes.append(lit(t))
+                i += 1
+                continue
+            inner = t[1:-1]
+            if inner.startswith('#'):
+                body, i, sep = parse_nodes(i + 1, inner[1:])
+                els = []
+                if sep == 'else':
+                    els, i, sep = parse_nodes(i, inner[1:])
+                nodes.append('NSection %s [%s] [%s]' % (coq_str(inner[1:]), '; '.join(body), '; '.join(els)))
+                continue
+            if inner.startswith('/'):
+                if inner[1:] != closing:
+                    raise TranslatorError('template: unbalanced section %s' % inner)
+                return nodes, i + 1, 'end'
+            if inner.startswith(':'):
+                if inner != ':else':
+                    raise TranslatorError('template: %s' % inner)
+                return nodes, i + 1, 'else'
+            if not inner:
+                raise TranslatorError('template: empty tag')
+            nodes.append('NRef %s' % coq_str(inner))
+            i += 1
+        if closing is not None:
+            raise TranslatorError('template: section %s not closed' % closing)
+        return nodes, i, 'eof'
+    if '{' in ''.join(toks[0::2]).replace('{', '', 0) and _re.search(r'\{[^#/:A-Za-z_.]', tpl):
+        raise TranslatorError('template uses ashes syntax outside the translated subset')
+    nodes, _, _ = parse_nodes(0, None)
+    out = [HEADER % rel, 'From Coq Require Import List String.\nImport ListNotations.\n',
+           'From ClasticV Require Import Base.Strs Model.Errors Model.Flaw.\nLocal Open Scope list_scope.\nLocal Open Scope string_scope.\n\n',
+           'Definition FLAW_NODES : list node :=\n  [%s].\n' % ';\n   '.join(nodes)]
+    ca = find_def(tree.body, 'create_app')
+    gi = find_def(tree.body, 'get_flaw_info')
+
+    def tries(fn):
+        rows = []
+        for n in ast.walk(fn):
+            if isinstance(n, ast.Try):
+                rows.append('try %s / %s' % (' ; '.join(ast.unparse(x) for x in n.body),
+                                             ' | '.join('except %s: %s' % (ast.unparse(h.type) if h.type is not None else '<bare>',
+                                                                           ' ; '.join(ast.unparse(x) for x in h.body)) for h in n.handlers)))
+        return rows
+    out.append('Definition FLAW_CREATE_TRIES : list string := %s.\n' % names_list(tries(ca)))
+    out.append('Definition FLAW_INFO_TRIES : list string := %s.\n' % names_list(tries(gi)))
+    pats = [ConstEval(tree).ev(e.elts[0]) for n in ast.walk(ca) if isinstance(n, ast.Assign) and ast.unparse(n.targets[0]) == 'routes'
+            for e in n.value.elts]
+    out.append('Definition FLAW_ROUTES : list string := %s.\n' % names_list(pats))
+    return ''.join(out)
+
+
 def gen_normpath(repo):
     from strfun import StrFun
     rel = 'clastic/route.py'
@@ -489,6 +705,9 @@ def gen_normpath(repo):
 
 
 GENERATORS = {
+    'FlawGen.v': gen_flaw,
+    'ErrorsGen.v': gen_errors,
+    'Templates.v': gen_templates,
     'CookieGuards.v': gen_cookie_guards,
     'MwGuards.v': gen_mw_guards,
     'StaticGuards.v': gen_static_guards,
